@@ -34,6 +34,12 @@ Definition payload_framing_errors_all_fatal : bool := true.
 (* if enc.isascii() and enc.lower() in {'gzip', 'deflate', 'br', 'zstd'}: encoding = enc.lower() *)
 Definition content_encoding_lowered : bool := true.
 
+(* strict parsing (SEP = CRLF): the length check on a buffered partial line does not count one trailing CR
+   (HttpParser._tail: len(tail) - tail.endswith(CR); HttpPayloadParser._chunk_tail likewise); false = every
+   buffered byte counts (len(tail) > max_line_length) *)
+Definition tail_check_discounts_cr : bool := true.
+Definition chunk_tail_check_discounts_cr : bool := true.
+
 Definition default_max_line : N := 8190.
 Definition default_max_headers : N := 128.
 Definition default_max_field : N := 8190.
